@@ -262,3 +262,4 @@ def install_misc(vm):
     vm.add_model(r'^<Box<dyn (std::error::|core::error::|Std)?Error \+ Send \+ Sync> as From<.*>>::from$', lambda vm, m, c, a: ret(m, Struct((a[0],), 'BoxDynError')))
     vm.add_model(r' as Into<Box<dyn (std::error::|core::error::|Std)?Error \+ Send \+ Sync>>>::into$', lambda vm, m, c, a: ret(m, Struct((a[0],), 'BoxDynError')))
     vm.add_model(r'^core::fmt::rt::|^Arguments::<|^std::fmt::format|^alloc::fmt::format|^format$', lambda vm, m, c, a: ret(m, Opaque('fmt')))
+    vm.add_model(r'^must_use::<', lambda vm, m, c, a: ret(m, a[0]))
